@@ -2,7 +2,7 @@ INIT Init
 NEXT Next
 CONSTANTS
   FlatLen = 4
-  Mode = "misc"
+  Mode = "hidden"
   Small = FALSE
-INVARIANT EnumOKAll
+INVARIANT ImplSatisfiesPropertyAll
 CHECK_DEADLOCK FALSE
